@@ -47,13 +47,14 @@ inductive HObj
   | dict (kvs : List (Val × Val))     -- insertion-ordered
   deriving Repr, Inhabited
 
-abbrev Heap := List HObj
+/-- the heap: allocation = push, address = index, nothing is ever freed -/
+abbrev Heap := Array HObj
 
-def Heap.alloc (h : Heap) (o : HObj) : Heap × Nat := (h ++ [o], h.length)
+def Heap.alloc (h : Heap) (o : HObj) : Heap × Nat := (h.push o, h.size)
 
 def Heap.get? (h : Heap) (a : Nat) : Option HObj := h[a]?
 
-def Heap.set (h : Heap) (a : Nat) (o : HObj) : Heap := List.set h a o
+def Heap.set (h : Heap) (a : Nat) (o : HObj) : Heap := h.setIfInBounds a o
 
 /-- one VM state (`VMState`): its scope stack above the builtins (top first; heap addresses of
     dicts; the last entry is the host's names mapping) and its op counter.  The budget
